@@ -282,6 +282,11 @@ def run_enum(desc, prop, selector):
             pp = A.PathPat(False, segs, False, 1)
             for cfg in configs_for(segs, idx + 3, 2) + [{'matchbase': True}]:
                 lang.eval_path(pp, dict(cfg, escsep=True), paths, out, armed, prop, selector(cfg), entry=idx % 3, stream='escsep')
+        if idx % 4 == 1:
+            # ... and with an escaped root separator / an escaped trailing separator / a doubled escaped separator
+            for pp in (A.PathPat(True, segs, False, 1), A.PathPat(False, segs, True, 1)) + ((A.PathPat(False, segs, False, 2),) if len(segs) > 1 else ()):
+                for cfg in configs_for(segs, idx + 5, 2):
+                    lang.eval_path(pp, dict(cfg, escsep=True), paths, out, armed, prop, selector(cfg), entry=idx % 3, stream='escsep-root')
         if idx % 997 == s:
             out.sample({'pattern': A.render_path(A.PathPat(False, segs, False, 1)), 'alphabet': alpha + '/', 'paths': len(paths),
                         'stream': 'enum'})
